@@ -227,23 +227,36 @@ func init() {
 		if !ok {
 			panic(ex.unsupported("strcase.ToSnake of a symbolic string"))
 		}
+		// a transcription of strcase v0.3.0 ToScreamingDelimited(s, '_', "", false) for a concrete string
+		c = strings.TrimSpace(c)
 		out := make([]byte, 0, len(c)+4)
+		isCap := func(b byte) bool { return b >= 'A' && b <= 'Z' }
+		isLow := func(b byte) bool { return b >= 'a' && b <= 'z' }
+		isNum := func(b byte) bool { return b >= '0' && b <= '9' }
 		for i := 0; i < len(c); i++ {
-			ch := c[i]
-			switch {
-			case ch >= 'a' && ch <= 'z', ch == '_':
-				out = append(out, ch)
-			case ch >= 'A' && ch <= 'Z':
-				if i > 0 && c[i-1] == '_' {
-					// already separated
-				} else if i > 0 && !(c[i-1] >= 'A' && c[i-1] <= 'Z') {
-					out = append(out, '_')
-				} else if i > 0 && i+1 < len(c) && c[i+1] >= 'a' && c[i+1] <= 'z' {
-					out = append(out, '_') // "HTTPServer" -> "http_server"
+			v := c[i]
+			vIsCap, vIsLow := isCap(v), isLow(v)
+			if vIsCap {
+				v += 'a' - 'A'
+			}
+			if i+1 < len(c) {
+				next := c[i+1]
+				vIsNum := isNum(v)
+				if (vIsCap && (isLow(next) || isNum(next))) || (vIsLow && (isCap(next) || isNum(next))) || (vIsNum && (isCap(next) || isLow(next))) {
+					if vIsCap && isLow(next) && i > 0 && isCap(c[i-1]) {
+						out = append(out, '_')
+					}
+					out = append(out, v)
+					if vIsLow || vIsNum || isNum(next) {
+						out = append(out, '_')
+					}
+					continue
 				}
-				out = append(out, ch+32)
-			default:
-				panic(ex.unsupported("strcase.ToSnake of something that is not a plain identifier"))
+			}
+			if v == ' ' || v == '_' || v == '-' || v == '.' {
+				out = append(out, '_')
+			} else {
+				out = append(out, v)
 			}
 		}
 		return ex.strConst(string(out))
